@@ -222,6 +222,24 @@ def enum_hooked_enums(shard, nshards):
                 yield {'kind': 'strong', 'model': spec, 'tree': copy.deepcopy(tree),
                        'corruption': 'enum', 'path': path, 'info': 'RED', 'repl': 'wrongtype'}
             i += 1
+        # the enum is the key attribute of items written as a mapping
+        # (map_attribute_to_seq / map_attribute_to_index in the container's savorize)
+        for op, ctype in (('map_to_seq', ['list', ['ref', 'Inner']]),
+                          ('map_to_index', ['dict', 'str', ['ref', 'Inner']])):
+            box = {'name': 'Box', 'kind': 'obj', 'bases': [], 'params': [
+                {'name': 'title', 'type': 'str'}, {'name': 'items', 'type': ctype}],
+                'recognize': [['mapping'], ['attr', 'items']],
+                'savorize': [[op, 'items', 'color', None]]}
+            spec2 = {'classes': [col, inner, box], 'order': ['Color', 'Inner', 'Box'],
+                     'doc_type': ['ref', 'Box']}
+            tree2 = T.M([('title', T.S('t')),
+                         ('items', T.M([('red', T.M([('n', T.S('1'))])),
+                                        ('green', T.M([('n', T.S('2'))]))]))])
+            for path in ([1, 1, 1, 1, 0, 0], [1, 1, 1, 1, 1, 0]):
+                if i % nshards == shard:
+                    yield {'kind': 'strong', 'model': spec2, 'tree': copy.deepcopy(tree2),
+                           'corruption': 'enum', 'path': path, 'info': 'RED', 'repl': 'wrongtype'}
+                i += 1
 
 
 def node_at(node, path):
